@@ -94,14 +94,40 @@ CHECKS = {
         text='Every token alone and every ordered token pair under 9 separators, all symbol strings and integer-alphabet strings up to a '
              'length bound, every byte/character/unicode escape, and every seed program under 6 layout policies.',
         note='Trusted base: hv.ref.lexer (written from the README token classes). Layout checks compile with hidc but execute nothing.'),
+    'C10': dict(
+        level='exploration', design='6/C10',
+        technique='deviation-bounded exhaustive enumeration (0, 1 and 2 token edits of well-formed seeds at every position; all short token and character strings; literal and option boundary classes; a grid of CLI invocations)',
+        text='Every enumerated input is pushed through lex/parse/typecheck/codegen and the strict assembler in-process, and a grid of real '
+             '`python -m hidc` invocations is run in a scratch directory: only located, renderable CompilerErrors may come out, failures '
+             'leave no output file and exit non-zero, successes assemble.',
+        note='Trusted base: hv.svm strict assembler as the acceptance oracle for emitted assembly; hv.ref.lexer to split seeds into tokens.'),
+    'C13': dict(
+        level='model_checking', design='6/C13',
+        technique='exhaustive byte-value enumeration of constants (every byte, byte pairs, lengths, array shapes) run on the exploring VM behind the strict assembler, compared with the reference interpreter',
+        text='String/char literals with every byte value in 12 uses, ordered byte pairs, every length 0..64, and constant arrays of every '
+             'element type, length, storage class and bool pattern are compiled, must assemble, and must print exactly the denoted bytes.'),
+    'C14': dict(
+        level='model_checking', design='6/C14',
+        technique='metamorphic twin runs (constant form vs. variable form) on the exploring VM over exhaustively enumerated constant expressions on boundary constants; reference interpreter as arbiter',
+        text='All operator/cast applications on pairs of boundary constants, nested expressions and chains are compiled with literals in place '
+             '(in four presentations) and with every literal moved into a run-time variable; both must print the same at W 2,3,4; '
+             'constant forms may be rejected only when the expression divides by zero.'),
+    'C16': dict(
+        level='model_checking', design='6/C16',
+        technique='exhaustive enumeration of function bodies (statement trees up to a size bound) x all condition assignments; VM exploration with a function-boundary flow monitor and a sentinel function; reference judgement for accept/reject',
+        text='Every body over return/break/continue/if/loops/try/preempt/defeat/terminal calls in plain, you and defeat functions: accept/reject '
+             'must equal the reference missing-return rule; accepted bodies run on every input with the pc monitored across function '
+             'boundaries on every explored path, a sentinel that must never print, trace equality with the reference; --lint must only '
+             'reject programs with a statement the reference never reaches and must not change code otherwise.'),
+    'C18': dict(
+        level='model_checking', design='6/C18',
+        technique='configuration enumeration: fresh-process compiles under 16-66 hash seeds, exhaustive stack-size sweeps, word-size twins on the exploring VM, lint twins',
+        text='Seed programs are compiled in separate processes under each PYTHONHASHSEED and must be byte-identical; completed runs are swept '
+             'over every larger stack size; runs whose 16-bit reference execution never wraps must be identical at W 2,3,4,8; --lint either '
+             'rejects or leaves the assembly unchanged.'),
 }
 
 PENDING = {
-    'C10': 'check under construction in this round (not a claim that the technique cannot apply)',
-    'C13': 'check under construction in this round (not a claim that the technique cannot apply)',
-    'C14': 'check under construction in this round (not a claim that the technique cannot apply)',
-    'C16': 'check under construction in this round (not a claim that the technique cannot apply)',
-    'C18': 'check under construction in this round (not a claim that the technique cannot apply)',
 }
 
 NOT_APPLICABLE = []
